@@ -25,7 +25,7 @@ def parse_rows():
     body = src[src.index("const struct instr_table INSTR_TABLE[]"):]
     rows = []
     for m in re.finditer(r"^\s*\{(\{'\\0'\}|\"[a-z0-9_]+\"),\s*([A-Za-z0-9_]+),\s*\{([^}]*)\},\s*([A-Za-z0-9_]+),\s*([A-Z_a-z0-9]+),\s*([^,]+),\s*([^,]+),\s*(\d+),\s*\{(.*)\}\},?\}?;?\s*$", body, re.M):
-        rows.append({"name": m.group(2), "fmt": [x.strip() for x in m.group(3).split(",")], "enc": m.group(4), "type": m.group(5), "opoff": m.group(6).strip(),
+        rows.append({"name": m.group(2), "str": m.group(1).strip('"') if m.group(1).startswith('"') else None, "fmt": [x.strip() for x in m.group(3).split(",")], "enc": m.group(4), "type": m.group(5), "opoff": m.group(6).strip(),
                      "single": m.group(7).strip(), "size": int(m.group(8)), "opcode": m.group(9)})
     return rows
 
@@ -86,16 +86,18 @@ def main():
             bad_by.setdefault(m, []).append(("%s %s" % (m, ", ".join(o))).strip())
     # aliases: the table's enum name is the mnemonic except for a few
     report = {"tier": tier, "rows": len(rows), "variants": 0, "detected": 0, "equivalent": 0, "silent": 0, "silent_list": [], "equivalent_list": [], "rows_without_corpus": []}
-    mn_of_row = []
-    cur = None
+    # the mnemonic a row answers to: its own string, else the string of the closest named row above with the same enumerator
+    cur = {}
     for r in rows:
-        mn_of_row.append(r["name"])
+        if r["str"]:
+            cur[r["name"]] = r["str"]
+        r["mn"] = r["str"] or cur.get(r["name"], r["name"])
     base_cache = {}
     for ri, r in enumerate(rows):
         if rows_sel and not (rows_sel[0] <= ri < rows_sel[1]):
             continue
-        mn = r["name"]
-        if mn in ("EOI", "LABEL", "SKIP", "NA"):
+        mn = r["mn"]
+        if r["name"] in ("EOI", "LABEL", "SKIP", "NA"):
             continue
         good = sorted(by.get(mn, {}))
         bad = bad_by.get(mn, [])
